@@ -211,6 +211,23 @@ impl<'a> VisitMut for Rw<'a> {
 
     fn visit_stmt_mut(&mut self, s: &mut Stmt) {
         visit_mut::visit_stmt_mut(self, s);
+        // R7 on a statement macro (`println!(..);`): an exprmap naming the whole macro call, in its source text, takes precedence
+        // over the blanket R5 replacement
+        if let Stmt::Macro(sm) = s {
+            let key = norm(&sm.mac.to_token_stream());
+            let hit = self.maps.exprmap.iter().find(|(k, _)| *k == key).cloned();
+            if let Some((k, v)) = hit {
+                match parse_str::<Expr>(&v) {
+                    Ok(ne) => {
+                        self.used_expr.insert(k.clone());
+                        self.log.push(json!({"rule": "R7", "src_line": line_of(sm.mac.path.span()), "before": key, "after": v}));
+                        *s = Stmt::Expr(ne, Some(Default::default()));
+                        return;
+                    }
+                    Err(er) => self.errors.push(format!("exprmap value `{v}` does not parse: {er}")),
+                }
+            }
+        }
         if let Stmt::Macro(sm) = s {
             if let Some(repl) = self.macro_rewrite(&sm.mac) {
                 *s = Stmt::Expr(repl, Some(Default::default()));
@@ -219,6 +236,26 @@ impl<'a> VisitMut for Rw<'a> {
     }
 
     fn visit_expr_mut(&mut self, e: &mut Expr) {
+        // R7 (source-text form): an exprmap whose key is the expression exactly as written in the source (before any rule touched
+        // its sub-expressions) replaces it whole; only keys that contain a macro call or a closure are tried here, since those are
+        // the ones R5/R11 would otherwise blur before the ordinary R7 match below sees them
+        if !self.maps.exprmap.is_empty() && matches!(e, Expr::MethodCall(_) | Expr::Macro(_) | Expr::Call(_)) {
+            let cur = norm(&e.to_token_stream());
+            if cur.contains('!') || cur.contains('|') {
+                let hit = self.maps.exprmap.iter().find(|(k, _)| *k == cur).cloned();
+                if let Some((k, v)) = hit {
+                    match parse_str::<Expr>(&v) {
+                        Ok(ne) => {
+                            self.used_expr.insert(k.clone());
+                            self.log.push(json!({"rule": "R7", "src_line": line_of(e.span()), "before": cur, "after": v}));
+                            *e = ne;
+                            return;
+                        }
+                        Err(er) => self.errors.push(format!("exprmap value `{v}` does not parse: {er}")),
+                    }
+                }
+            }
+        }
         visit_mut::visit_expr_mut(self, e);
         let line = line_of(e.span());
 
